@@ -52,6 +52,7 @@ THEOREMS = [NS + n for n in [
     "diff_copies_when_shared",
     "only_source_copied_witness",
     "stale_hash_witness",
+    "evict_all_breaks_ancestors_witness",
     "generated_wrapper_policy_ok",
     "generated_compares_ignored_leaves",
 ]]
@@ -159,21 +160,40 @@ def translate(chk: Check) -> str:
             if isinstance(st, ast.Try):
                 first = st.body[0] if st.body else None
                 hash_ok = isinstance(first, ast.If) and ast.unparse(first.test) == "copy and matchings"
+                # what the else-branch records before hashing the input nodes
+                records_unhashed = False
+                if hash_ok and first.orelse:
+                    els = [ast.unparse(x) for x in first.orelse]
+                    want = "unhashed = [node for node in chain(source_nodes, target_nodes) if node._hash is None]"
+                    loop = [i for i, x in enumerate(first.orelse) if isinstance(x, ast.For)]
+                    records_unhashed = want in els and loop and els.index(want) < loop[0] \
+                        and "unhashed: list[exp.Expr] = []" in [ast.unparse(x) for x in fn.body]
                 fb = st.finalbody
-                clears = lambda body: any(isinstance(x, ast.Assign) and ast.unparse(x) == "node._hash = None"
-                                          for b in body for x in ast.walk(b)) and "chain(source_nodes, target_nodes)" in ast.unparse(ast.Module(body=body, type_ignores=[]))
-                if len(fb) == 1 and isinstance(fb[0], ast.If) and not fb[0].orelse and clears(fb[0].body):
-                    wp["evict"] = {"not (copy and matchings)": "unlessCopiesHashed", "not copy": "whenNotCopied",
-                                   "True": "always"}.get(ast.unparse(fb[0].test))
-                elif len(fb) == 1 and isinstance(fb[0], ast.For) and clears(fb):
+
+                def evict_loop(body):
+                    """-> the iterable of the `for node in X: node._hash = None` loop, or None"""
+                    if len(body) == 1 and isinstance(body[0], ast.For) and ast.unparse(body[0].target) == "node" \
+                            and [ast.unparse(x) for x in body[0].body] == ["node._hash = None"]:
+                        return ast.unparse(body[0].iter)
+                    return None
+
+                ALL = "chain(source_nodes, target_nodes)"
+                if len(fb) == 1 and isinstance(fb[0], ast.If) and not fb[0].orelse:
+                    test, it = ast.unparse(fb[0].test), evict_loop(fb[0].body)
+                    if it == "unhashed" and records_unhashed and test == "not (copy and matchings)":
+                        wp["evict"] = "ownUnlessCopiesHashed"
+                    elif it == ALL:
+                        wp["evict"] = {"not (copy and matchings)": "unlessCopiesHashed", "not copy": "whenNotCopied",
+                                       "True": "always"}.get(test)
+                elif evict_loop(fb) == ALL:
                     wp["evict"] = "always"
-                elif not fb or not clears(fb):
+                elif not fb or "_hash" not in ast.unparse(ast.Module(body=fb, type_ignores=[])):
                     wp["evict"] = "never"
         if not cond_ok:
             problems.append("diff(): shared-node condition `copy = ...` not recognised")
         if not hash_ok:
             problems.append("diff(): `if copy and matchings:` hashing branch not recognised")
-    for k, dflt in (("src", "whenShared"), ("tgt", "whenShared"), ("evict", "unlessCopiesHashed")):
+    for k, dflt in (("src", "whenShared"), ("tgt", "whenShared"), ("evict", "ownUnlessCopiesHashed")):
         if wp[k] is None:
             problems.append(f"diff(): wrapper shape '{k}' not recognised")
             wp[k] = dflt
@@ -230,6 +250,7 @@ class Tap:
         self.dice = {}
         self.matchings = None
         self.cd = None
+        self.inner_dice = 0
 
     def __enter__(self):
         CD = self.D.ChangeDistiller
@@ -240,6 +261,8 @@ class Tap:
         def dice(self_, s, t):
             v = o_dice(self_, s, t)
             tap.dice[(id(s), id(t))] = v
+            if any(not isinstance(k, tap.D.IGNORED_LEAF_EXPRESSION_TYPES) for k in s.iter_expressions()):
+                tap.inner_dice += 1
             return v
 
         def gen(self_, matchings, delta_only):
@@ -448,7 +471,9 @@ def g_expr(rng, d):
     if d <= 0 or r < 0.45:
         return g_atom(rng)
     if r < 0.62:
-        return ["func", rng.choice(FUNCS), [g_expr(rng, d - 1) for _ in range(rng.choice([1, 1, 2, 3]))]]
+        fn = rng.choice(FUNCS)
+        n_args = 1 if fn in ("ABS", "UPPER", "SUM", "MAX") else rng.choice([1, 2]) if fn == "ROUND" else rng.choice([1, 1, 2, 3])
+        return ["func", fn, [g_expr(rng, d - 1) for _ in range(n_args)]]
     if r < 0.82:
         return ["bin", rng.choice(["+", "-", "*", "/"]), g_expr(rng, d - 1), g_expr(rng, d - 1)]
     if r < 0.9:
@@ -640,7 +665,7 @@ def edit_query(rng, q):
         if vs:
             v = rng.choice(vs)
             inner = list(v)
-            v[:] = ["func", rng.choice(FUNCS), [inner]]
+            v[:] = ["func", rng.choice(FUNCS), [inner]]  # one argument: valid for every function in FUNCS
             return "wrap"
     if r < 0.95:
         fs = [s for s in slots if s[0] == "func" and len(s[2]) >= 1]
@@ -681,9 +706,50 @@ CORPUS_SQL = [
 ]
 
 
-def parse(sql):
+def parse(sql, read=None):
     sqlglot, _, _ = sg()
-    return sqlglot.parse_one(sql)
+    return sqlglot.parse_one(sql, read=read)
+
+
+# ---- trees containing constructs the SQL generator rewrites while rendering, diffed with a dialect= argument,
+#      as near-similar pairs (about half of the leaves renamed) so that inner nodes land in the leaf-similarity band
+#      [0.4, 0.8) where the distiller falls back to comparing generated SQL of whole subtrees
+DIALECT_TEMPLATES = [
+    # (read dialect, SQL with {p} = projection list, {w} = predicate)
+    ("mysql", "SELECT {p}, x / y, (a + 1) / (b - 1) FROM t WHERE {w} AND c / d > 1"),
+    ("mysql", "SELECT {p} FROM t WHERE a / b > c / d AND {w}"),
+    (None, "SELECT {p} FROM t WHERE {w} LIMIT 5"),
+    ("tsql", "SELECT TOP 5 {p} FROM t WHERE {w}"),
+    ("tsql", "SELECT TOP 3 {p} FROM t AS t1 WHERE {w} ORDER BY a"),
+    ("bigquery", "SELECT {p} FROM t, UNNEST(arr) AS el WITH OFFSET AS pos WHERE {w}"),
+    ("bigquery", "SELECT {p}, STRUCT(a AS f1, b AS f2) AS st FROM t WHERE {w}"),
+    ("duckdb", "SELECT {p}, {{'k1': a, 'k2': b}} AS st FROM t WHERE {w}"),
+    (None, "SELECT {p} INTO t2 FROM t WHERE {w}"),
+    ("tsql", "SELECT {p} INTO #tmp FROM t WHERE {w}"),
+    ("postgres", "SELECT {p} FROM t WHERE {w} LIMIT 5 OFFSET 2"),
+]
+DIFF_DIALECTS = [None, None, "tsql", "tsql", "mysql", "bigquery", "duckdb", "postgres", "spark", "oracle"]
+
+
+def gen_dialect_pair(rng):
+    """-> (src_sql, tgt_sql, read, diff dialect)"""
+    read, tpl = rng.choice(DIALECT_TEMPLATES)
+    k = rng.choice([4, 5, 6, 8])
+    names = [rng.choice(COLS) for _ in range(k)]
+    def proj(ns):
+        out = []
+        for i, n in enumerate(ns):
+            out.append(n if i % 3 else f"{n} + {i}")
+        return ", ".join(out)
+    w_cols = [rng.choice(COLS) for _ in range(2)]
+    pred = lambda c: f"{c[0]} > 1 AND {c[1]} < 2"
+    # rename a fraction of the leaves: 30-60% keeps the Select's leaf similarity in or near the band
+    frac = rng.choice([0.0, 0.3, 0.4, 0.5, 0.6])
+    names2 = [(n + "zz" + str(i)) if rng.random() < frac else n for i, n in enumerate(names)]
+    w2 = [(c + "qq") if rng.random() < frac else c for c in w_cols]
+    a = tpl.format(p=proj(names), w=pred(w_cols))
+    b = tpl.format(p=proj(names2), w=pred(w2))
+    return a, b, read, rng.choice(DIFF_DIALECTS)
 
 
 def gen_pair(rng, chk=None):
@@ -739,6 +805,7 @@ def correspond(chk: Check) -> list:
     while len(cases) < n:
         cases.append(gen_pair(rng, chk))
     lines, expect, meta = [], [], []
+    bad_inputs = []
     for ci, (kind, a, b) in enumerate(cases):
         try:
             src, tgt = parse(a), parse(b)
@@ -755,8 +822,19 @@ def correspond(chk: Check) -> list:
         variants.append((pre, rng.random() < 0.5, rng.choice(F_CHOICES), rng.choice(T_CHOICES)))
         if rng.random() < 0.35:
             variants.append(([], True, rng.choice(F_CHOICES), rng.choice(T_CHOICES)))
-        for pre_idx, delta_only, f, tf in variants:
-            line, ans, axiom_failures = real_case(src, tgt, pre_idx, delta_only, f, tf)
+        for vi, (pre_idx, delta_only, f, tf) in enumerate(variants):
+            if vi:
+                src, tgt = parse(a), parse(b)  # fresh trees: a diff that alters its inputs must not poison the next variant
+            fp_before = (fingerprint(src, False), fingerprint(tgt, False))
+            try:
+                line, ans, axiom_failures = real_case(src, tgt, pre_idx, delta_only, f, tf)
+            except HarnessError as e:
+                chk.correspondence_broken("the real diff left a tree the harness cannot encode", {"src": a, "tgt": b, "what": str(e)})
+                bad_inputs.append({"src": a, "tgt": b, "pre": pre_idx, "delta_only": delta_only, "f": f, "t": [tf.numerator, tf.denominator]})
+                continue
+            if (fingerprint(src, False), fingerprint(tgt, False)) != fp_before:
+                chk.correspondence_broken("the real diff altered its input trees", {"src": a, "tgt": b})
+                bad_inputs.append({"src": a, "tgt": b, "pre": pre_idx, "delta_only": delta_only, "f": f, "t": [tf.numerator, tf.denominator]})
             for af in axiom_failures:
                 chk.correspondence_broken("oracle axiom (DiceOk / EqcCongr) fails on the real code", {"src": a, "tgt": b, "what": af})
             lines.append(line)
@@ -780,7 +858,7 @@ def correspond(chk: Check) -> list:
             ex["model"], ex["impl"] = g[:400], e[:400]
             chk.correspondence_broken("ChangeDistiller matching/edit script", ex)
             bad.append(m)
-    return bad
+    return bad_inputs + bad
 
 
 def encode_walk(root, oid):
@@ -810,7 +888,8 @@ def tree_consistent(root) -> bool:
 
 def correspond_wrapper(chk: Check) -> None:
     """diff()'s wrapper vs Wrapper.runDiff: which trees are copied, whether the ChangeDistiller gets parent-consistent
-    trees, how many input nodes keep a cached _hash — on unshared inputs, diff(t, t), and grafts in both directions."""
+    trees, which input nodes (and ancestors of subtree inputs) change their cached _hash — on unshared inputs, diff(t, t),
+    self-duplicates, grafts in both directions, pre-hashed / partially hashed inputs and subtree inputs."""
     _, _, D = sg()
     rng = chk.rng
     pairs = list(SHARE_TEMPLATES) + [("SELECT a FROM t", "SELECT a FROM t"), ("SELECT a, a FROM t", "SELECT b FROM u WHERE a = 1")]
@@ -824,47 +903,73 @@ def correspond_wrapper(chk: Check) -> None:
             sh, _lvl = pick_share(rng, a, b)
             if sh:
                 scenarios.append(sh)
-        # a tree that references one of its own objects twice
         scenarios.append(["selfdup", 1, 2])
+        scenarios += [["subtree", rng.randint(1, 6), rng.randint(1, 6)] for _ in range(2)]
         for share in scenarios:
             for m in (False, True):
+                prehash = rng.choice(["none", "none", "src", "both", "partial", "tgt"])
+                if share and share[0] == "subtree":
+                    prehash = rng.choice(["both", "src", "partial", "none"])
                 try:
                     src, tgt = parse(a), parse(b)
                 except Exception:  # noqa
                     continue
                 sw, tw = list(src.walk()), list(tgt.walk())
+                s_in, t_in = src, tgt
                 if share == "same":
-                    tgt = src
+                    tgt = t_in = src
                 elif share and share[0] == "selfdup":
-                    if len(tw) < 3 or any(True for _ in tw[1].iter_expressions()) is False:
+                    if len(tw) < 3:
                         continue
                     tgt.append("expressions", tw[1])  # same object twice under the target root
+                elif share and share[0] == "subtree":
+                    if share[1] >= len(sw) or share[2] >= len(tw):
+                        continue
+                    s_in, t_in = sw[share[1]], tw[share[2]]
+                    if is_ident(s_in) or is_ident(t_in):
+                        continue  # a caller may not hand Identifier nodes to matchings= (they are not indexed)
                 elif share:
                     mode, i, j = share
                     if i >= len(sw) or j >= len(tw) or i == 0 or j == 0:
                         continue
                     (tw[j].replace(sw[i]) if mode == "s2t" else sw[i].replace(tw[j]))
-                ids = {}
-                oid = lambda n: ids.setdefault(id(n), len(ids))
-                keep = []  # keep referenced objects alive so ids stay unique
-                line = json.dumps({"op": "wrapper", "sw": encode_walk(src, lambda n: (keep.append(n), oid(n))[1]),
-                                   "tw": encode_walk(tgt, lambda n: (keep.append(n), oid(n))[1]), "matchings": m})
-                inputs = {id(n): n for n in list(src.walk()) + list(tgt.walk())}
+                whole = {id(n): n for r_ in (src, tgt) for n in r_.walk()}
+                if prehash in ("src", "both"):
+                    hash(src)
+                if prehash in ("tgt", "both"):
+                    hash(tgt)
+                if prehash == "partial":
+                    hash(rng.choice(list(src.walk())))
+                ids, keep = {}, []
+
+                def oid(n):
+                    keep.append(n)
+                    return ids.setdefault(id(n), len(ids))
+
+                enc_s, enc_t = encode_walk(s_in, oid), encode_walk(t_in, oid)
+                inputs = {id(n): n for n in list(s_in.walk()) + list(t_in.walk())}
+                outside = {i_: n for i_, n in whole.items() if i_ not in inputs}
+                before = {i_: n._hash is not None for i_, n in whole.items()}
+                line = json.dumps({"op": "wrapper", "sw": enc_s, "tw": enc_t, "matchings": m,
+                                   "hashed": [oid(n) for i_, n in whole.items() if before[i_]],
+                                   "outside": [oid(n) for n in outside.values()]})
                 with Tap() as tap:
                     try:
-                        D.diff(src, tgt, matchings=[(src, tgt)] if m else None)
-                        cs, ct = tap.cd._source is not src, tap.cd._target is not tgt
-                        ans = "W copyS=%d copyT=%d consS=%d consT=%d stale=%d" % (
+                        D.diff(s_in, t_in, matchings=[(s_in, t_in)] if m else None)
+                        cs, ct = tap.cd._source is not s_in, tap.cd._target is not t_in
+                        ans = "W copyS=%d copyT=%d consS=%d consT=%d changedIn=%d changedOut=%d" % (
                             cs, ct, tree_consistent(tap.cd._source), tree_consistent(tap.cd._target),
-                            sum(1 for n in inputs.values() if n._hash is not None))
+                            sum(1 for i_, n in inputs.items() if (n._hash is not None) != before[i_]),
+                            sum(1 for i_, n in outside.items() if (n._hash is not None) != before[i_]))
                     except Exception as e:  # noqa
                         ans = f"exception {type(e).__name__}"
-                for n in inputs.values():
+                for n in whole.values():
                     n._hash = None
                 lines.append(line)
                 expect.append(ans)
-                meta.append({"src": a, "tgt": b, "share": share, "matchings": m})
-                chk.count("wrapper:" + (share if isinstance(share, str) else share[0] if share else "unshared") + ("/m" if m else ""))
+                meta.append({"src": a, "tgt": b, "share": share, "matchings": m, "prehash": prehash})
+                chk.count("wrapper:" + (share if isinstance(share, str) else share[0] if share else "unshared")
+                          + ("/m" if m else "") + ("/prehashed" if prehash != "none" else ""))
     got = chk.driver("C20", lines)
     chk.corr_cases += len(lines)
     for g, e, mt in zip(got, expect, meta):
@@ -933,7 +1038,9 @@ def oracle(src, tgt, pre_idx=(), share=None, kw=None):
            | ["t2s", i, j]: source walk node i is replaced by the TARGET's node object j (attached to the source last:
              the shared object's .parent then lies in the source tree)."""
     _, exp, D = sg()
-    kw = kw or {}
+    kw = dict(kw or {})
+    kw.pop("read", None)
+    prehash = kw.pop("_prehash", None)
     out = []
     if share == "same":
         tgt = src
@@ -953,6 +1060,13 @@ def oracle(src, tgt, pre_idx=(), share=None, kw=None):
     sw, tw = list(src.walk()), list(tgt.walk())
     pre = [(sw[i], tw[j]) for i, j in pre_idx if i < len(sw) and j < len(tw)]
     shared = bool({id(n) for n in sw} & {id(n) for n in tw}) or len({id(n) for n in sw}) != len(sw)
+    # inputs that arrive with cached hashes (whole tree or a sub-tree) must leave with exactly the same caches
+    if prehash in ("src", "both"):
+        hash(src)
+    if prehash in ("tgt", "both"):
+        hash(tgt)
+    if prehash == "partial" and len(sw) > 1:
+        hash(sw[len(sw) // 2])
     fp0 = (fingerprint(src), fingerprint(tgt))
     fs0 = (fingerprint(src, False), fingerprint(tgt, False))
     try:
@@ -1037,10 +1151,14 @@ def oracle(src, tgt, pre_idx=(), share=None, kw=None):
     return out
 
 
-def copy_oracle(tree):
+def copy_oracle(tree, kw=None):
     _, _, D = sg()
+    kw = {k: v for k, v in (kw or {}).items() if k not in ("read", "_prehash")}
     try:
-        d = D.diff(tree, tree.copy(), delta_only=True)
+        fp0 = fingerprint(tree)
+        d = D.diff(tree, tree.copy(), delta_only=True, **kw)
+        if fingerprint(tree) != fp0:
+            return [("mutated-input", "diff(t, t.copy()) changed t: structure")]
     except Exception as e:  # noqa
         return [("exception", f"diff(t, t.copy()) raised {type(e).__name__}")]
     return [("copy-nonempty", f"diff(t, t.copy(), delta_only=True) has {len(d)} edit(s)")] if d else []
@@ -1145,16 +1263,21 @@ def report(chk, kind, detail, src, tgt, pre_idx, share, kw):
     cause = detail.rsplit(": ", 1)[-1] if kind in ("empty-unequal", "equal-nonempty", "mutated-input") else ""
     if not pre_idx and not share:
         def still_bad(a, b):
-            res = oracle(a.copy(), b.copy(), (), None, kw)
+            # judged on what a replay will load (serde round trip), so a minimised case always replays
+            res = oracle(load_tree(dump_tree(a)), load_tree(dump_tree(b)), (), None, kw)
             return any(k == kind and (not cause or d.endswith(cause)) for k, d in res)
 
+        orig = (src.copy(), tgt.copy())
         try:
-            src, tgt = minimise(src.copy(), tgt.copy(), still_bad, chk.pick(6.0, 20.0))
+            if still_bad(src, tgt):
+                src, tgt = minimise(src.copy(), tgt.copy(), still_bad, chk.pick(6.0, 20.0))
         except Exception:  # noqa
-            pass
-        res = [d for k, d in oracle(src.copy(), tgt.copy(), (), None, kw) if k == kind]
+            src, tgt = orig
+        res = [d for k, d in oracle(load_tree(dump_tree(src)), load_tree(dump_tree(tgt)), (), None, kw) if k == kind]
         if res:
             detail = res[0]
+        else:
+            src, tgt = orig  # keep the case exactly as found
     key = kind + (":" + cause if cause else "") + ("|share-" + (share if isinstance(share, str) else str(share[0] if len(share) == 3 else "s2t")) if share else "") \
         + "|" + skeleton(src) + "|" + skeleton(tgt)
     try:
@@ -1255,17 +1378,24 @@ def search(chk: Check, hints: list, budget_s: float) -> None:
     def consider(a, b, pre_idx, share, kw):
         nonlocal tried, found
         tried += 1
+        read = (kw or {}).get("read")
         try:
-            src, tgt = parse(a), parse(b)
+            src, tgt = parse(a, read), parse(b, read)
         except Exception:  # noqa
+            chk.count("search:unparseable")
             return
         # caller matchings must pair nodes of the same type (anything else makes "paired nodes have the same type" the caller's fault)
         sw0, tw0 = list(src.walk()), list(tgt.walk())
         pre_idx = [(i, j) for i, j in pre_idx if i < len(sw0) and j < len(tw0) and D._is_same_type(sw0[i], tw0[j])
                    and not is_ident(sw0[i])]
-        res = oracle(src, tgt, pre_idx, share, kw)
+        with Tap() as tap:
+            res = oracle(src, tgt, pre_idx, share, kw)
+        if any(k in (kw or {}) for k in ("dialect", "read")):
+            chk.count("search:dialect=" + str((kw or {}).get("dialect")) + "/read=" + str(read))
+            if tap.inner_dice:
+                chk.count("search:dialect-case-with-inner-node-dice")
         if not share and not pre_idx:
-            res += copy_oracle(parse(a))
+            res += copy_oracle(parse(a, read), kw)
         chk.count("search:" + (("share-" + (share if isinstance(share, str) else share[0] if len(share) == 3 else "s2t")
                                  + ("-equal" if a == b else "")) if share else "pre" if pre_idx else "plain"))
         seen = set()
@@ -1275,17 +1405,39 @@ def search(chk: Check, hints: list, budget_s: float) -> None:
             seen.add(kind)
             found += 1
             if kind == "copy-nonempty":
-                s1 = parse(a)
+                s1 = parse(a, read)
                 report(chk, kind, detail, s1, s1.copy(), (), None, kw)
             else:
                 # fresh, unshared trees for minimisation / replay payload
-                report(chk, kind, detail, parse(a), parse(b), tuple(pre_idx), share, kw)
+                report(chk, kind, detail, parse(a, read), parse(b, read), tuple(pre_idx), share, kw)
 
     for item in todo:
         if len(chk.violations) >= 3 or time.time() - t0 > 2 * budget_s:
             break
         consider(*item)
+    # deterministic first: every generator-rewritten construct, every diff dialect family, band pairs
+    for read, tpl in DIALECT_TEMPLATES:
+        for dd in (None, "tsql", read):
+            names = ["a", "b", "c", "x", "y", "id"]
+            for k in (2, 3, 4, 5):  # renaming 3-4 of 6 leaves puts the Select into the [0.4, 0.8) band
+                p1 = ", ".join(names)
+                p2 = ", ".join((n + "zz") if i < k else n for i, n in enumerate(names))
+                kwd = {"read": read}
+                if dd:
+                    kwd["dialect"] = dd
+                if len(chk.violations) < 3:
+                    consider(tpl.format(p=p1, w="a > 1 AND b < 2"), tpl.format(p=p2, w="a > 1 AND b < 2"), [], None, kwd)
     while time.time() - t0 < budget_s and len(chk.violations) < 3:
+        if rng.random() < 0.22:
+            a, b, read, dd = gen_dialect_pair(rng)
+            kw = {"read": read}
+            if dd:
+                kw["dialect"] = dd
+            if rng.random() < 0.2:
+                kw["_prehash"] = rng.choice(["src", "both", "partial"])
+            consider(a, b, [], None, kw)
+            chk.case(("search-dialect", a, b, read, dd), nontrivial=a != b)
+            continue
         kind, a, b = gen_pair(rng)
         r = rng.random()
         pre_idx, share, kw = [], None, {}
@@ -1308,6 +1460,8 @@ def search(chk: Check, hints: list, budget_s: float) -> None:
                 pre_idx = [(0, 0)]
         if rng.random() < 0.2:
             kw = {"f": rng.choice(F_CHOICES), "t": float(rng.choice(T_CHOICES))}
+        if rng.random() < 0.15:
+            kw["_prehash"] = rng.choice(["src", "tgt", "both", "partial"])
         consider(a, b, pre_idx, share, kw)
         chk.case(("search", a, b, tuple(pre_idx), share, tuple(sorted(kw.items()))), nontrivial=a != b)
     chk.search_info = {"ran": True, "budget_s": budget_s, "pairs": tried, "violating": found,
@@ -1317,6 +1471,9 @@ def search(chk: Check, hints: list, budget_s: float) -> None:
 
 # ------------------------------------------------------------------------------------------ entry points
 def run(chk: Check) -> None:
+    import logging
+
+    logging.getLogger("sqlglot").setLevel(logging.CRITICAL)  # generator warnings for cross-dialect rendering are expected
     chk.trusted.append("C20: hand-written model Model/Diff.lean of ChangeDistiller.{diff,_compute_leaf_matching_set,_compute_matching_set,"
                        "_generate_edit_script,_generate_move_edits}, _get_expression_leaves, _parent_similarity_score, _lcs, Expr.bfs; "
                        "the harness-side encoding of trees (equality / leaf-dict / same-type classes computed with the real == )")
@@ -1359,7 +1516,7 @@ def replay(path: str) -> int:
     share = r.get("share")
     share = list(share) if isinstance(share, (list, tuple)) else share
     if r["kind"] == "copy-nonempty":
-        res = copy_oracle(src)
+        res = copy_oracle(src, r.get("kw"))
     else:
         res = [x for x in oracle(src, tgt, [tuple(p) for p in r.get("pre", [])], share, r.get("kw") or {})]
     res = [x for x in res if x[0] == r["kind"]] or res
